@@ -87,7 +87,15 @@ def run(facts, rep, tier, ctx):
             if o["rule"] == "P":
                 k += 1
                 rep.ob(("A/" if asyncw else "") + "R16.3p", o["fn"], o["key"].split("|")[2], o["ok"], o["detail"], o["loc"])
+            # "no update is lost": what a publication carries over from the stored entry (its other time stamps) is read from
+            # the entry inside the publishing critical section, not remembered from when the handle was opened
+            if o["rule"] == "y":
+                rep.ob(("A/" if asyncw else "") + "R16.3t", o["fn"], o["key"].split("|")[2], o["ok"], o["detail"], o["loc"])
         rep.floor("publication obligations (%s)" % w_.tag, k, 5)
+    # "nothing panics": the handles' own code (Drop publishes through flush and unwraps its result) has no undischarged panic
+    # site — shared with C13/C14
+    from . import c13 as _c13
+    _c13.sites_for(facts, rep, ctx["V"], "R16.p", lambda r: bool(r.impl) and ("ReadableFile" in r.impl["self_ty"] or "WritableFile" in r.impl["self_ty"]))
     # R16.6 operations that hand out a handle do not leave an intermediate state behind: append_file does not touch the stored
     # entry, and a write handle (whose Drop publishes) is only built once nothing can fail any more — shared with C01 (Table M,
     # R01.3)
